@@ -1,4 +1,4 @@
-import Poly.Proofs.Ledger
+import Poly.Proofs.LedgerChain
 /-!
 # C12 — Ledger recovers exactly after a crash at any persistence point
 
@@ -142,6 +142,13 @@ theorem crash_state_opens (p : Params) (g : Block) (hg : g.header.height = 0) (s
   · have : k = 3 := by omega
     subst this
     exact ⟨_, openState_crash3 p s b hs hh⟩
+
+/-- **A crash during the very first start is harmless** (with the repaired `StateStore.ClearAll`): whatever point of
+the genesis block's persistence was reached (nothing, block store, + event store, + state store — the version key is
+written last), the second start on the same directory yields exactly the ledger of an undisturbed first start. -/
+theorem first_start_crash_harmless (p : Params) (g : Block) (hg : g.header.height = 0) (k : Nat) :
+    reopen p g (firstCrashD p g k) = initLedger p g :=
+  reopen_firstCrash p g k hg
 
 /-- The event store is idempotent to re-saving a block's batch (the reason the event commit precedes the state
 commit in `submitBlock`). -/
